@@ -17,14 +17,17 @@ from pygments.token import Keyword, Literal, Name, Operator, Punctuation
 from .common import MachineryError
 
 MAXD = 8
-KINDS = {"Name": Name, "Keyword": Keyword, "Punct": Punctuation, "Op": Operator, "Other": Literal.String}
-SUBKINDS = {
-    "Name": [Name, Name.Function, Name.Other, Name.Class],
-    "Keyword": [Keyword, Keyword.Declaration, Keyword.Reserved, Keyword.Type],
-    "Punct": [Punctuation],
-    "Op": [Operator, Operator.Word],
-    "Other": [Literal.String, Literal.Number.Integer, Literal.String.Double],
-}
+# every concrete Pygments token type a lexer of the seven languages gives to code tokens is a kind of its own: a
+# predicate (or Token.is_name / is_keyword underneath it) may single out any of them; kinds that nothing
+# distinguishes are merged again by the quotient. The part before the dot is the base kind.
+KINDS = {"Name": Name, "Name.Function": Name.Function, "Name.Other": Name.Other, "Name.Class": Name.Class, "Name.Builtin": Name.Builtin,
+         "Keyword": Keyword, "Keyword.Declaration": Keyword.Declaration, "Keyword.Reserved": Keyword.Reserved, "Keyword.Type": Keyword.Type, "Keyword.Constant": Keyword.Constant,
+         "Punct": Punctuation, "Op": Operator, "Op.Word": Operator.Word, "Other": Literal.String, "Other.Number": Literal.Number.Integer}
+SUBKINDS = {k: [t] for k, t in KINDS.items()}
+
+
+def base_kind(k: str) -> str:
+    return k.split(".")[0]
 OTHER_VALUE = "zz9"
 
 SEEDS = {
@@ -352,7 +355,7 @@ class Automaton:
             for ci in m:
                 k, v = self.full_classes[ci]
                 want = natural.get(v, "Keyword")
-                if (v == "OTHER" and k in ("Name", "Other")) or (v != "OTHER" and k == want):
+                if (v == "OTHER" and base_kind(k) in ("Name", "Other")) or (v != "OTHER" and (k == want or (want == "Keyword" and base_kind(k) == "Keyword"))):
                     self.realistic.append(qi + 1)
                     break
         # uniformity beyond depth 2 (justifies saturation at MAXD)
@@ -372,7 +375,7 @@ class Automaton:
         for ci in members:
             k, v = self.full_classes[ci]
             want = pref.get(v, "Keyword")
-            if want == k or (want is None and k == "Other"):
+            if want == k or (want is None and k == "Other"):  # exact base kinds are preferred as representatives
                 return ci
         return best
 
